@@ -272,7 +272,17 @@ class Chain(BaseChain):
         # check that we're not starting outside of the prior
         if stats['logp'] == -numpy.inf:
             raise ValueError("starting position is outside of the prior!")
-        self._stats0 = stats.copy()
+        stats = stats.copy()
+        if isinstance(stats, dict):
+            # the stats are stored as double precision floats; make the
+            # starting stats the same, whatever number type the model returned
+            # (otherwise the type of one chain's values is forced on the others
+            # when the current stats of several chains are stacked, and the
+            # first step is done with another precision than the later ones)
+            stats = {key: numpy.float64(val) if isinstance(
+                         val, (int, float, numpy.integer, numpy.floating))
+                     else val for key, val in stats.items()}
+        self._stats0 = stats
 
     @property
     def blob0(self):
